@@ -14,9 +14,8 @@ type zzObs struct {
 }
 
 func zzObserve(k *ExtendedKey) zzObs {
-	k.String()
 	return zzObs{
-		ser:      append([]byte(nil), zzEncoded...),
+		ser:      zzSer(k),
 		pub:      append([]byte(nil), k.pubKeyBytes()...),
 		chain:    append([]byte(nil), k.chainCode...),
 		fp:       append([]byte(nil), k.parentFP...),
@@ -61,9 +60,7 @@ func ZZ_C15_independent() {
 	case 1:
 		b, err = a.Neuter()
 	case 2:
-		a.String()
-		zzDecoded = append([]byte(nil), zzEncoded...)
-		b, err = NewKeyFromString("<base58>")
+		b, err = zzParse(zzSer(a), false)
 	}
 	if err != nil || b == nil {
 		return
